@@ -63,6 +63,8 @@ func compositeIntField(c *Ctx, varName, field string) (int64, bool) {
 }
 
 func runC06(c *Ctx) {
+	// a message over the limit is answered 552 only if the drain still finds the end marker: the reader keeps its framing
+	ruleDotStructure(c)
 	R := c.R
 	_, s := c.Std()
 
@@ -197,6 +199,38 @@ func runC06(c *Ctx) {
 		R.Ob("ErrDataTooLarge/code 552", "-", ok1 && code == 552, fmt.Sprintf("ErrDataTooLarge.Code = %d", code))
 	}
 
+	ruleSizeParam(c)
+
+	R.Rule("R-bdat-limit", "E3+E6", "a chunk reaches the pipe only when the running total stays within the limit (strictly greater is refused with 552, chunk consumed, transaction reset); the total counts accepted chunks only", 5)
+	if bi := bdatAnchors(c); bi != nil && bi.parse != nil {
+		f := bi.f
+		sum := "(Conn.bytesReceived + " + bi.sizeDesc + ")"
+		for _, site := range s.Find(f, "copy-to:Conn.bdatPipe") {
+			c.obUnreach("chunk to pipe", site, `Server.MaxMessageBytes != 0`, sum+` > Server.MaxMessageBytes`)
+			c.obUnreach("chunk to pipe", site, `Server.MaxMessageBytes > 0`, sum+` > Server.MaxMessageBytes`)
+		}
+		n552 := s.Find(f, "reply:552")
+		R.Ob("(*Conn).handleBdat/has 552 refusal", c.P.Pos(f.Pos()), len(n552) >= 1, "no 552 reply in handleBdat")
+		for _, site := range n552 {
+			c.obUnreach("reply 552", site, sum+` <= Server.MaxMessageBytes`)
+			c.obUnreach("reply 552", site, `Server.MaxMessageBytes == 0`)
+		}
+		c.obFollow("552 then reset", f, c.direct("reply:552"), []string{lReset}, nil, nil)
+		c.obFollow("552 then chunk discarded", f, c.direct("reply:552"), []string{"drain:io.Reader"}, nil, nil)
+	}
+	if bi := bdatAnchors(c); bi != nil && bi.parse != nil {
+		ruleBdatAccounting(c, bi)
+		R.Rule("R-reset-zeroes-total", "E1", "reset() zeroes the running total", 1)
+	}
+	if f := c.A.Func("(*Conn).reset"); f != nil {
+		R.Ob("(*Conn).reset/bytesReceived=0", c.P.Pos(f.Pos()), s.Must(f)["st:Conn.bytesReceived=0"], "reset() does not certainly zero the running total")
+	}
+}
+
+// ruleSizeParam is shared by C06 and C12 (the advertised SIZE value is honoured by MAIL).
+func ruleSizeParam(c *Ctx) {
+	R := c.R
+	_, s := c.Std()
 	R.Rule("R-size-param", "E3+E6", "MAIL SIZE is refused with 552, without consulting the backend, exactly when a limit is set and the declared size exceeds it", 4)
 	if f := c.A.Func("(*Conn).handleMail"); f != nil {
 		// find the comparison with Server.MaxMessageBytes: the other operand must derive from a
@@ -247,30 +281,5 @@ func runC06(c *Ctx) {
 			_, _, v := storedField(st)
 			R.Ob(c.siteKey(st, "opts.Size = parsed SIZE"), c.P.InstrPos(st), describe(v) == sizeDesc && sizeDesc != "", "opts.Size stored from "+describe(v))
 		}
-	}
-
-	R.Rule("R-bdat-limit", "E3+E6", "a chunk reaches the pipe only when the running total stays within the limit (strictly greater is refused with 552, chunk consumed, transaction reset); the total counts accepted chunks only", 5)
-	if bi := bdatAnchors(c); bi != nil && bi.parse != nil {
-		f := bi.f
-		sum := "(Conn.bytesReceived + " + bi.sizeDesc + ")"
-		for _, site := range s.Find(f, "copy-to:Conn.bdatPipe") {
-			c.obUnreach("chunk to pipe", site, `Server.MaxMessageBytes != 0`, sum+` > Server.MaxMessageBytes`)
-			c.obUnreach("chunk to pipe", site, `Server.MaxMessageBytes > 0`, sum+` > Server.MaxMessageBytes`)
-		}
-		n552 := s.Find(f, "reply:552")
-		R.Ob("(*Conn).handleBdat/has 552 refusal", c.P.Pos(f.Pos()), len(n552) >= 1, "no 552 reply in handleBdat")
-		for _, site := range n552 {
-			c.obUnreach("reply 552", site, sum+` <= Server.MaxMessageBytes`)
-			c.obUnreach("reply 552", site, `Server.MaxMessageBytes == 0`)
-		}
-		c.obFollow("552 then reset", f, c.direct("reply:552"), []string{lReset}, nil, nil)
-		c.obFollow("552 then chunk discarded", f, c.direct("reply:552"), []string{"drain:io.Reader"}, nil, nil)
-	}
-	if bi := bdatAnchors(c); bi != nil && bi.parse != nil {
-		ruleBdatAccounting(c, bi)
-		R.Rule("R-reset-zeroes-total", "E1", "reset() zeroes the running total", 1)
-	}
-	if f := c.A.Func("(*Conn).reset"); f != nil {
-		R.Ob("(*Conn).reset/bytesReceived=0", c.P.Pos(f.Pos()), s.Must(f)["st:Conn.bytesReceived=0"], "reset() does not certainly zero the running total")
 	}
 }
